@@ -169,6 +169,55 @@ pub fn c20(opts: &Opts, out: &mut Out) {
         }
         let _ = RistrettoPoint::default();
     }
+    // prover calls that FAIL: whatever the prover copied out of the witness before it gave up must be wiped as well
+    {
+        use curve25519_dalek::traits::Identity;
+        use tari_bulletproofs_plus::{range_parameters::RangeParameters, range_statement::RangeStatement, traits::Compressable};
+        let (n, m, t) = (8usize, 2usize, 2usize);
+        for case in ["wrong-opening", "value-out-of-range", "value-below-promise", "identity-blinding-generator", "identity-value-generator"] {
+            let mut pg = rrun::pedersen(rrun::deg(t));
+            match case {
+                "identity-blinding-generator" => {
+                    pg.g_base_vec[1] = RistrettoPoint::identity();
+                    pg.g_base_compressed_vec[1] = pg.g_base_vec[1].compress();
+                },
+                "identity-value-generator" => {
+                    pg.h_base = RistrettoPoint::identity();
+                    pg.h_base_compressed = pg.h_base.compress();
+                },
+                _ => {},
+            }
+            let Ok(pr) = RangeParameters::init(n, m, pg) else { continue };
+            let vals: Vec<u64> = vec![200, 17];
+            let rs: Vec<Vec<Scalar>> = (0..m).map(|_| (0..t).map(|_| Scalar::random(&mut rng)).collect()).collect();
+            let cs: Vec<RistrettoPoint> = vals.iter().zip(rs.iter()).map(|(v, r)| pr.pc_gens().commit(&Scalar::from(*v), r).unwrap()).collect();
+            let promises = if case == "value-below-promise" { vec![None, Some(18u64)] } else { vec![None; m] };
+            let Ok(stmt) = RangeStatement::init(pr, cs, promises, None) else { continue };
+            let mut wv = vals.clone();
+            let mut wr = rs.clone();
+            match case {
+                "wrong-opening" => wr[1][1] += Scalar::ONE,
+                "value-out-of-range" => wv[0] = 256 + 200,
+                _ => {},
+            }
+            let Ok(wit) = RangeWitness::init(wv.iter().zip(wr.iter()).map(|(v, r)| CommitmentOpening::new(*v, r.clone())).collect()) else { continue };
+            let key = format!("failing prover call n={} m={} t={} case={}", n, m, t, case);
+            alloc::clear();
+            for r in &wr {
+                for s in r {
+                    alloc::register(s.as_bytes(), 0);
+                }
+            }
+            let mut tr = merlin::Transcript::new(b"verif-harness");
+            let mut prng = chacha(7, 7);
+            alloc::arm();
+            let proof = rrun::Proof::prove_with_rng(&mut tr, &stmt, &wit, &mut prng);
+            let (hits, freed) = alloc::disarm();
+            out.oracle("C20:failing-call-fails", proof.is_err(), &key, "the prover call of this scenario was expected to be refused");
+            report(out, "prove(failing)", &key, &hits, freed, &mut total_freed);
+            classes.insert((n, m, t + 10, false));
+        }
+    }
     // witnesses assembled through the public fields, which the prover accepts: openings with fewer blinding factors
     // than the statement's degree, and ragged ones (the temporary buffers sized from the witness must still be wiped)
     for (t, lens) in [(2usize, vec![1usize, 2]), (3, vec![1, 3]), (2, vec![2, 1]), (4, vec![1, 1, 4, 2])] {
